@@ -6,6 +6,7 @@ from pyvc.runner import ContractTask
 from pyvc.values import *   # noqa
 from .transit_lib import make_transit_registry, BodyLemma, T_PY, TRUSTED_LIB, DEFERRED
 from . import c06
+from . import c20 as _c20
 
 PROP = "C07"
 T = T_PY + ":"
@@ -22,6 +23,9 @@ OLD_HS = "old(self.state) in ('start', 'handshake')"
 OLD_RELAY = "old(self.state) == 'relay'"
 NOW_REC = "self.state == 'records'"
 SENDER = "self.owner.is_sender"
+
+NEG_START_FIELDS = {**c06.F_STATE, **c06.F_BUF, **c06.F_NEG, "transport": "obj[Transport]", "owner": "obj[Common]",
+                    "relay_handshake": "opt[bytes]"}
 
 CONTRACTS = [
     Contract(T + "Connection._check_and_remove", props=[PROP], params={"expected": "bytes"},
@@ -186,7 +190,14 @@ CONTRACTS = [
              ensures=[("returns-the-same-deferred", "result == d")],
              internal_ensures=[("deadline-armed-to-cancel-the-deferred",
                                 "bcall_names() == ['callLater', 'addBoth'] and bcall_arg('callLater', 0, 0) == timeout and "
-                                "is_method_of(bcall_arg('callLater', 0, 1), d, 'cancel') and bcall_arg('addBoth', 0, 0) == d")],
+                                "is_method_of(bcall_arg('callLater', 0, 1), d, 'cancel') and bcall_arg('addBoth', 0, 0) == d"),
+                               ("when-the-deferred-fires-first-the-timer-is-cancelled-and-the-result-passed-on",
+                                "run_callback(bcall_arg('addBoth', 0, 1), probe()) == probe() and "
+                                "bcall_names()[:3] == ['callLater', 'addBoth', 'active'] and "
+                                "bcall_arg('active', 0, 0) == event_arg('new-timer', 0, 0) and "
+                                "implies(event_arg('active-result', 0, 0), bcall_names()[3:] == ['cancel'] and "
+                                "bcall_arg('cancel', 0, 0) == event_arg('new-timer', 0, 0)) and "
+                                "implies(not event_arg('active-result', 0, 0), bcall_names()[3:] == [])")],
              note="connect() cannot hang: a timer that cancels the summary Deferred is armed (that the reactor fires it is "
                   "Twisted's business)"),
     # ------------------------------------------------------------------ exactly one winner among the contenders
@@ -238,6 +249,152 @@ CONTRACTS = [
                  ("waits-while-contenders-remain", "implies(self._remaining, self._fired == old(self._fired))")],
              note="connect()'s summary Deferred fires once (guarded by _fired), only when no contender is pending, with the first "
                   "success if there was one, else the first failure"),
+    # ------------------------------------------------------------------ connect(): every contender races under one deadline
+    Contract(T + "Common._start_connector", props=[PROP],
+             params={"ep": "obj[Endpoint]", "description": "str", "is_relay": "bool"},
+             self_fields={"is_sender": "bool", "_transit_key": "bytes", "_side": "str"},
+             requires=["is_hex16(self._side)"], returns=DEFERRED,
+             raises_exactly={"AssertionError": "is_relay and len(self._transit_key) == 0"},
+             internal_ensures=[
+                 ("dials-the-endpoint-with-a-factory-of-this-transit",
+                  "bcall_names() == ['connect', 'addCallback'] and bcall_arg('connect', 0, 0) is ep and "
+                  "bcall_arg('connect', 0, 1).owner is self and (bcall_arg('connect', 0, 1).relay_handshake is not None) == is_relay"),
+                 ("contender-is-the-connection-attempt", "result == event_arg('new-deferred', 0, 0) and bcall_arg('addCallback', 0, 0) == result"),
+                 ("a-connected-protocol-starts-negotiating-at-once",
+                  "run_callback(bcall_arg('addCallback', 0, 1), a_protocol()) == event_arg('negotiation-deferred', 0, 0) and "
+                  "bcall_names()[2:] == ['startNegotiation'] and n_events('negotiation-deferred') == 1")],
+             note="the contender Deferred of an outbound attempt fires with the protocol only through startNegotiation (by contract): "
+                  "its result is the negotiation Deferred, so the race is won by finished negotiations, not by TCP connects"),
+    Contract(T + "Common._connect", props=[PROP, "C20"], params={},
+             self_fields={"is_sender": "bool", "_transit_key": "bytes", "_side": "str", "_listener_d": f"opt[{DEFERRED}]",
+                          "_their_direct_hints": f"seq[{_c20.HINT}]", "_our_relay_hints": "set[nt[RelayV1Hint]]",
+                          "_tor": "opt[obj[Tor]]", "_reactor": "obj[Reactor]"},
+             requires=["all_valid(self._their_direct_hints)", "all_relays_valid(self._our_relay_hints)", "is_hex16(self._side)",
+                       "len(self._transit_key) > 0"],
+             returns=DEFERRED, raises={"TransitError": None},
+             ensures_raise={"TransitError": [("only-without-a-listener", "self._listener_d is None"),
+                                             ("nothing-raced", "n_calls('there_can_be_only_one') == 0")]},
+             internal_ensures=[
+                 ("one-race-under-one-deadline",
+                  "n_calls('there_can_be_only_one') == 1 and n_calls('_not_forever') == 1 and "
+                  "call_arg('_not_forever', 0, 2) == call_result('there_can_be_only_one') and call_arg('_not_forever', 0, 1) == 2 * TIMEOUT and "
+                  "result == call_result('_not_forever')"),
+                 ("the-listener-contends", "implies(self._listener_d is not None, seq_has(call_arg('there_can_be_only_one', 0, 0), self._listener_d))"),
+                 ("every-attempt-started-contends", "call_arg('there_can_be_only_one', 0, 0) == contenders and len(contenders) > 0")],
+             loops={0: {"header": "for hint_obj in self._their_direct_hints", "retype": {"contenders": f"seq[{DEFERRED}]"},
+                        "invariant": ["prefix_of(at_entry(contenders), contenders)"],
+                        "body_ensures": [
+                            "iter_n_calls('endpoint_from_hint_obj') == 1 and iter_call_arg('endpoint_from_hint_obj', 0, 0) == hint_obj",
+                            "implies(iter_call_result('endpoint_from_hint_obj', 0) is None, contenders == at_iter(contenders) and "
+                            "iter_n_calls('_start_connector') == 0)",
+                            "implies(iter_call_result('endpoint_from_hint_obj', 0) is not None, iter_n_calls('_start_connector') == 1 and "
+                            "iter_call_arg('_start_connector', 0, 1) is iter_call_result('endpoint_from_hint_obj', 0) and "
+                            "not iter_call_arg('_start_connector', 0, 3) and "
+                            "contenders == at_iter(contenders) + [iter_call_result('_start_connector', 0)])"]},
+                    1: {"header": "for rh in self._our_relay_hints", "retype": {"prioritized_relays": f"dict[json,set[{_c20.HINT}]]"},
+                        "invariant": ["keys_numeric(prioritized_relays)", "set_buckets_valid(prioritized_relays)"]},
+                    2: {"header": "for hint_obj in rh.hints",
+                        "invariant": ["keys_numeric(prioritized_relays)", "set_buckets_valid(prioritized_relays)", "all_valid(_iter)"]},
+                    3: {"header": "for priority in sorted(prioritized_relays, reverse=True)",
+                        "invariant": ["prefix_of(at_entry(contenders), contenders)", "set_buckets_valid(prioritized_relays)"]},
+                    4: {"header": "for hint_obj in prioritized_relays[priority]",
+                        "invariant": ["prefix_of(at_entry(contenders), contenders)"],
+                        "body_ensures": [
+                            "iter_n_calls('endpoint_from_hint_obj') == 1 and iter_call_arg('endpoint_from_hint_obj', 0, 0) == hint_obj",
+                            "implies(iter_call_result('endpoint_from_hint_obj', 0) is None, contenders == at_iter(contenders) and "
+                            "len(iter_bcall_names()) == 0)",
+                            "implies(iter_call_result('endpoint_from_hint_obj', 0) is not None, iter_bcall_names() == ['deferLater'] and "
+                            "is_method_of(iter_bcall_arg('deferLater', 0, 2), self, '_start_connector') and "
+                            "iter_bcall_arg('deferLater', 0, 3) is iter_call_result('endpoint_from_hint_obj', 0) and "
+                            "iter_bcall_kwarg('deferLater', 0, 'is_relay') and "
+                            "contenders == at_iter(contenders) + [new_deferred()])"]}},
+             note="direct hints are dialled at once (_start_connector by contract), relay sub-hints through deferLater(_start_connector, "
+                  "is_relay=True) grouped by priority; each attempt's Deferred is appended to the contender list, which only grows; "
+                  "the list (with the listener's Deferred first, when listening) is handed to there_can_be_only_one and its summary to "
+                  "_not_forever(2*TIMEOUT); with nothing to try TransitError.  C20: for hints that passed add_connection_hints nothing "
+                  "else raises and endpoint_from_hint_obj's precondition (a parsed hint) holds at both call sites"),
+    # ------------------------------------------------------------------ wiring of the contenders (run / cancel / inbound / negotiation start)
+    Contract(T + "_ThereCanBeOnlyOne.run", props=[PROP], params={},
+             self_fields={"_remaining": f"set[{DEFERRED}]", "_winner_d": DEFERRED}, returns=DEFERRED,
+             ensures=[("returns-the-summary-deferred", "result == self._winner_d")],
+             internal_ensures=[("every-contender-wired",
+                                f"forall(lambda x: implies(x in self._remaining, x in gw), '{DEFERRED}') and "
+                                f"forall(lambda x: implies(x in gw, x in self._remaining), '{DEFERRED}')")],
+             loops={0: {"header": "for d in list(self._remaining)",
+                        "ghost_init": {"gw": f"empty_seq('{DEFERRED}')"}, "ghost_update": {"gw": "gw + [d]"},
+                        "invariant": ["gw + _iter[_i:] == _iter", "len(gw) == _i"],
+                        "body_ensures": ["seq_unfold(_iter, _i - 1)",
+                                         "iter_bcall_names() == ['addBoth', 'addCallbacks', 'addCallback']",
+                                         "iter_bcall_arg('addBoth', 0, 0) == d and is_method_of(iter_bcall_arg('addBoth', 0, 1), self, '_remove') "
+                                         "and iter_bcall_arg('addBoth', 0, 2) == d",
+                                         "iter_bcall_arg('addCallbacks', 0, 0) == d and is_method_of(iter_bcall_arg('addCallbacks', 0, 1), self, '_succeeded') "
+                                         "and is_method_of(iter_bcall_arg('addCallbacks', 0, 2), self, '_failed')",
+                                         "iter_bcall_arg('addCallback', 0, 0) == d and is_method_of(iter_bcall_arg('addCallback', 0, 1), self, '_maybe_done')"]}},
+             note="ghost gw: contenders wired so far. Every contender gets, in this order, _remove(res, d) for either outcome, then "
+                  "_succeeded / _failed, then _maybe_done: so whenever one fires it leaves _remaining first, records the outcome, and "
+                  "the summary is re-evaluated"),
+    Contract(T + "_ThereCanBeOnlyOne._cancel", props=[PROP], params={"_": "opaque[Any]"},
+             self_fields={"_remaining": f"set[{DEFERRED}]"},
+             internal_ensures=[("every-remaining-contender-cancelled",
+                                f"forall(lambda x: implies(x in self._remaining, x in gc), '{DEFERRED}') and "
+                                f"forall(lambda x: implies(x in gc, x in self._remaining), '{DEFERRED}')")],
+             loops={0: {"header": "for d in list(self._remaining)",
+                        "ghost_init": {"gc": f"empty_seq('{DEFERRED}')"}, "ghost_update": {"gc": "gc + [d]"},
+                        "invariant": ["gc + _iter[_i:] == _iter", "len(gc) == _i"],
+                        "body_ensures": ["seq_unfold(_iter, _i - 1)", "iter_bcall_names() == ['cancel']", "iter_bcall_arg('cancel', 0, 0) == d"]}},
+             note="the canceller of the summary Deferred (the _not_forever deadline, or the application): every contender still "
+                  "pending is cancelled exactly once"),
+    Contract(T + "there_can_be_only_one", props=[PROP], params={"contenders": f"seq[{DEFERRED}]"}, returns=DEFERRED,
+             internal_ensures=[("a-fresh-race-over-exactly-these-contenders-is-run",
+                                "n_calls('_ThereCanBeOnlyOne.run') == 1 and result == call_result('_ThereCanBeOnlyOne.run') and "
+                                f"forall(lambda x: (x in call_arg('_ThereCanBeOnlyOne.run', 0, 0)._remaining) == seq_has(contenders, x), '{DEFERRED}') and "
+                                "not call_arg('_ThereCanBeOnlyOne.run', 0, 0)._fired and not call_arg('_ThereCanBeOnlyOne.run', 0, 0)._have_winner")],
+             note="__init__ inlined, run by contract: the summary Deferred handed back is the one of a new race whose contender set "
+                  "is exactly the argument"),
+    Contract(T + "Connection.startNegotiation", props=[PROP], params={},
+             self_fields=dict(NEG_START_FIELDS),
+             requires=["self.buf == b''", "self.state == 'too-early'", "self._negotiation_d is not None"],
+             modifies=["state", "buf", "_error"], returns=DEFERRED,
+             raises_exactly={"AssertionError": f"len({K}) == 0 and self.relay_handshake is None"},
+             ensures=[("returns-the-negotiation-deferred", "result == self._negotiation_d"),
+                      ("via-relay-waits-for-ok", "implies(self.relay_handshake is not None, self.state == 'relay')"),
+                      ("direct-waits-for-the-peer-handshake", "implies(self.relay_handshake is None, self.state == 'handshake')"),
+                      ("no-error-recorded", "self._error is old(self._error)")],
+             internal_ensures=[
+                 ("relay-handshake-is-the-only-thing-sent-before-ok",
+                  "implies(self.relay_handshake is not None, bcall_names() == ['write'] and bcall_arg('write', 0, 0) == self.relay_handshake)"),
+                 ("own-role-handshake-sent-first",
+                  f"implies(self.relay_handshake is None, bcall_names() == ['write'] and bcall_arg('write', 0, 0) == {OWN})")],
+             ensures_raise={"AssertionError": [("dropped", "self.state == 'hung up'")]},
+             note="dataReceived/_dataReceived inlined on the empty buffer (callees _check_and_remove/_send_this/_expect_this by "
+                  "contract): a relayed connection says only the relay handshake and waits in 'relay'; a direct one says its own "
+                  "role's handshake and waits in 'handshake'.  Without a transit key (inbound connection before set_transit_key) the "
+                  "assert in _send_this drops the connection"),
+    Contract(T + "InboundConnectionFactory.buildProtocol", props=[PROP], params={"addr": "opaque[Address]"},
+             self_fields={"owner": "obj[Common]", "start": "real", "_pending_connections": f"set[{DEFERRED}]", "_inbound_d": DEFERRED},
+             returns="obj[Connection]",
+             ensures=[("inbound-connection-belongs-to-this-transit", "result.owner is self.owner and result.factory is self"),
+                      ("never-via-relay", "result.relay_handshake is None"),
+                      ("not-negotiating-yet", "result.state == 'too-early' and result.buf == b'' and result._negotiation_d is not None")],
+             note="Connection.__init__ inlined"),
+    Contract(T + "InboundConnectionFactory.connectionWasMade", props=[PROP], params={"p": "obj[Connection]"},
+             self_fields={"owner": "obj[Common]", "_pending_connections": f"set[{DEFERRED}]", "_inbound_d": DEFERRED},
+             requires=["p.buf == b''", "p.state == 'too-early'", "p._negotiation_d is not None", "p.relay_handshake is None"],
+             raises_exactly={"AssertionError": "len(p.owner._transit_key) == 0"},
+             ensures_raise={"AssertionError": [("connection-dropped-nothing-tracked", "p.state == 'hung up' and "
+                                                "self._pending_connections == old(self._pending_connections)")]},
+             modifies=["_pending_connections", "p.state", "p.buf", "p._error"],
+             internal_ensures=[
+                 ("negotiation-started-once", "n_calls('startNegotiation') == 1 and call_arg('startNegotiation', 0, 0) is p"),
+                 ("pending-negotiation-tracked-for-cancellation",
+                  f"forall(lambda x: (x in self._pending_connections) == (x in old(self._pending_connections) or x == call_result('startNegotiation')), '{DEFERRED}')"),
+                 ("outcome-wired-to-the-listener",
+                  "bcall_names() == ['addBoth', 'addCallbacks'] and bcall_arg('addBoth', 0, 0) == call_result('startNegotiation') and "
+                  "is_method_of(bcall_arg('addBoth', 0, 1), self, '_remove') and bcall_arg('addBoth', 0, 2) == call_result('startNegotiation') and "
+                  "bcall_arg('addCallbacks', 0, 0) == call_result('startNegotiation') and "
+                  "is_method_of(bcall_arg('addCallbacks', 0, 1), self, '_proto_succeeded') and is_method_of(bcall_arg('addCallbacks', 0, 2), self, '_proto_failed')")],
+             note="every inbound connection starts negotiating at once (startNegotiation by contract); its Deferred is tracked so that "
+                  "_shutdown can cancel it, leaves the set when it fires (_remove), and a success reaches _proto_succeeded"),
     Contract(T + "InboundConnectionFactory._shutdown", props=[PROP], params={},
              self_fields={"_pending_connections": f"set[{DEFERRED}]"},
              internal_ensures=[("every-pending-negotiation-cancelled",
@@ -264,7 +421,68 @@ def regf(exclude=()):
     reg = make_transit_registry(HELPERS + CONTRACTS, exclude)
     reg.class_fields["Connection"] = {}
     sf = reg.spec_funcs
-    reg.boundary_returns["Reactor.callLater"] = "opaque[DelayedCall]"
+
+    def call_later(it, recv, meth, args, kwargs, fr):
+        it.ctx.event("bcall", "Reactor", meth, list(args), dict(kwargs))
+        t = it.fresh("opaque[DelayedCall]", "timer")
+        it.ctx.event("new-timer", t)
+        return t
+
+    def timer_call(it, recv, meth, args, kwargs, fr):
+        """a method of the DelayedCall: recorded with the receiver as argument 0; active() answers either way"""
+        it.ctx.event("bcall", "DelayedCall", meth, [recv] + list(args), dict(kwargs))
+        if meth == "active":
+            b = it.fresh("bool", "timer_active")
+            it.ctx.event("active-result", b)
+            return b
+        return NONE
+
+    reg.boundary["Reactor.callLater"] = call_later
+    reg.boundary["DelayedCall.*"] = timer_call
+
+    def run_callback(it, f, x):
+        """the callback registered on a Deferred, run as the real code it is (Twisted calls it with the result)"""
+        save, it.spec_mode = it.spec_mode, 0
+        try:
+            return it.call(it.force(f), [x], {}, None)
+        finally:
+            it.spec_mode = save
+
+    sf["run_callback"] = run_callback
+    _c20.install_hint_support(reg)
+    for c in _c20.CONTRACTS:
+        if c.target.endswith(":endpoint_from_hint_obj") or c.target.endswith(":describe_hint_obj"):
+            reg.contracts[c.target] = c          # proved in C20, used here
+    sf["a_protocol"] = lambda it: VObj("ProtocolB")       # what the endpoint's Deferred fires with (a collaborator here)
+
+    def start_negotiation_b(it, recv, meth, args, kwargs, fr):
+        it.ctx.event("bcall", "ProtocolB", meth, list(args), dict(kwargs))
+        d = it.fresh(DEFERRED, "negotiation_d")
+        it.ctx.event("negotiation-deferred", d)
+        return d
+
+    reg.boundary["ProtocolB.startNegotiation"] = start_negotiation_b
+    sf["prefix_of"] = lambda it, a, b: VBool(z3.PrefixOf(a.z if isinstance(a, VSeq) else to_z3(a, T("seq", [b.elem])), b.z))
+
+    def set_buckets_valid(it, m):
+        k = z3.Const("k!sbv", sort_of(m.kt))
+        x = z3.Const("x!sbv", sort_of(m.vt.args[0]))
+        return VBool(z3.ForAll([k, x], z3.Implies(z3.And(z3.Select(m.present, k), z3.Select(z3.Select(m.val, k), x)),
+                                                  _c20._valid_tcp(from_z3(x, m.vt.args[0])))))
+
+    sf["set_buckets_valid"] = set_buckets_valid
+
+    def iter_bcall_kwarg(it, name, k, kw):
+        tr = it.ctx.trace
+        start = max([i for i, e in enumerate(tr) if e[0] == "loop-body-start"] + [-1])
+        evs = [e for e in tr[start + 1:] if e[0] == "bcall" and e[1][1] == it.concrete(name)]
+        k = it.concrete(k)
+        return evs[k][1][3].get(it.concrete(kw), NONE) if k < len(evs) else NONE
+
+    sf["iter_bcall_kwarg"] = iter_bcall_kwarg
+    em = reg.ext_models
+    em["time.time"] = lambda it, args, kw: it.fresh("real", "now")
+    sf["probe"] = lambda it: VOpaque(z3.Const("probe!result", opaque_sort("Any")), "Any")
     reg.spec_funcs["exc_class"] = lambda it, x: VStr(it.force(x).cls if isinstance(it.force(x), VObj) else "?")
     sf["diverges"] = lambda it, a, b: VBool(z3.And(z3.Not(z3.PrefixOf(a.z, b.z)), z3.Not(z3.PrefixOf(b.z, a.z))))
     return reg
@@ -277,11 +495,33 @@ def regf_opaque_hs():
     return reg
 
 
+def regf_inline_sm():
+    """startNegotiation cycles the real state machine once: dataReceived/_dataReceived are executed, not summarised"""
+    return regf(exclude=(T + "Connection._dataReceived",))
+
+
+for _c in CONTRACTS:
+    if _c.target == T + "Common._connect":
+        _c.qf_feasibility = True      # quantified invariants: branch pruning without them (keeps more paths, never fewer)
+
+
+def regf_inbound():
+    """a Connection handed to the inbound factory carries the fields startNegotiation's contract talks about"""
+    reg = regf()
+    reg.class_fields["Connection"] = dict(NEG_START_FIELDS)
+    reg.class_fields["Common"] = {"is_sender": "bool", "_transit_key": "bytes"}
+    return reg
+
+
 def tasks():
-    return [ContractTask(c, regf_opaque_hs if c.target == T + "Connection._dataReceived" else regf) for c in CONTRACTS]
+    special = {T + "InboundConnectionFactory.connectionWasMade": regf_inbound, T + "Connection._dataReceived": regf_opaque_hs, T + "Connection.startNegotiation": regf_inline_sm,
+               T + "there_can_be_only_one": lambda: regf(exclude=(T + "_ThereCanBeOnlyOne.__init__",))}
+    return [ContractTask(c, special.get(c.target, regf)) for c in CONTRACTS]
 
 
-TRUSTED = TRUSTED_LIB
+TRUSTED = TRUSTED_LIB + ["the hint / endpoint / sorted() / task.deferLater / endpoint.connect models of props/c20.py (listed under C20's "
+                         "TRUSTED), used by Common._connect and _start_connector; time.time() returns a real; DelayedCall.active() "
+                         "answers either way, DelayedCall.cancel() is a recorded event"]
 ASSUMPTIONS = [
     "HKDF idealisation (injective in the key for a fixed info) and unhexlify(hexlify(x)) == x: used by "
     "lemma:handshakes_bind_key_and_role and lemma:other_key_is_rejected only; that a party without the transit key cannot "
@@ -296,6 +536,17 @@ ASSUMPTIONS = [
     "'exactly one go per Common' is connection_ready's contract (go iff _winner was None, and then _winner is set and never "
     "cleared); that two Connections never interleave inside connection_ready is the single-threaded reactor",
     "aliasing: the Connection passed to connection_ready is not already the recorded winner (it would get 'nevermind')",
-    "Common._connect / connect (inlineCallbacks, endpoint construction), InboundConnectionFactory.connectionWasMade wiring, "
-    "_ThereCanBeOnlyOne.run/_cancel, the _done closure of _not_forever, startNegotiation: not under contract",
+    "Common._connect: hints in _their_direct_hints / _our_relay_hints passed add_connection_hints (C20's postcondition, taken "
+    "as precondition), a transit key is set (connect() yields _get_transit_key() first) and _side is the 16-hex-digit string of "
+    "__init__; 'every attempt contends' is stated per iteration (the attempt's Deferred is appended to the contender list) plus "
+    "'the list only grows' plus 'the list is what there_can_be_only_one gets': the induction over iterations is not spelled out "
+    "as one quantified clause.  endpoint_from_hint_obj / describe_hint_obj are used by their C20 contracts",
+    "Common._start_connector: the protocol an endpoint's Deferred fires with is a collaborator object there (its "
+    "startNegotiation is a recorded call whose result the callback must return); OutboundConnectionFactory.buildProtocol is "
+    "not under contract",
+    "the callbacks registered on Deferreds (_not_forever's _done, _start_connector's lambda) are run as real code on a probe "
+    "value by the clause that describes them; that Twisted calls them with the Deferred's result is the Deferred contract",
+    "not under contract: Common.connect (the inlineCallbacks wrapper: yields _get_transit_key() then _connect() and returns the "
+    "winner), Common._get_direct_hints' _stop_listening closure (stops the listener when the listener's Deferred fires), "
+    "InboundConnectionFactory._proto_failed, Connection.__init__ as a function of its own (inlined in buildProtocol)",
 ]
